@@ -60,7 +60,7 @@ func init() {
 	})
 	addProp(&PropSpec{
 		ID: "C05", Level: "other",
-		Quick:       []string{"R-AXIOM-EMPTY", "R-CONSUME-DELETES", "R-BRANCH-COPY", "R-STRUCT-GATES", "R-FRESH-BINDER", "R-MULTI-CONTRACT", "R-MODE-TABLES"},
+		Quick:       []string{"R-AXIOM-EMPTY", "R-CONSUME-DELETES", "R-BRANCH-COPY", "R-STRUCT-GATES", "R-FRESH-BINDER", "R-CUT-SPLIT", "R-MULTI-CONTRACT", "R-MODE-TABLES"},
 		Explanation: "Decides on every path of every typing rule: axioms succeed only on an empty context; consuming a name deletes it; each case branch is typed in its own copy of the context; drop/split are gated by the weakening/contraction predicate of the consumed type's mode (tables proved in C17); every binder inserted into a context is fresh (or covered by the cut's reuse dichotomy); a multi-provider declaration requires contraction.",
 		NotDecided:  "completeness of the context-splitting heuristic (that every derivable program is accepted)",
 		Assumptions: commonAssumptions,
@@ -98,9 +98,16 @@ func init() {
 		Exhaustive:  true,
 	})
 	ps := propSpecs["C11"]
-	ps.Quick = append(ps.Quick, "R-GENERATED", "R-PARSE-ERR")
 	ps.Explanation += " Additionally: the committed parser is exactly goyacc(parser.y) with no conflicts and no error productions (so at most one syntax error is reported), the error channel has capacity for it, and Parse/ParseReader propagate it."
 	ps = propSpecs["C12"]
-	ps.Quick = append(ps.Quick, "R-GENERATED", "R-KIND-EXH", "R-PARSE-ERR")
 	ps.Explanation += " Additionally: the generated parser is up to date and accepts only on the end marker; every statement kind is kept by expandProcesses; parse errors are propagated by all entry points."
+}
+
+func init() {
+	addProp(&PropSpec{
+		ID: "C06", Level: "other",
+		Explanation: "Decides that every root judgement site (typecheckForm on a fresh context: function bodies, cut bodies, top-level processes) is covered by the mode-independence check applied to that judgement's own names and provider type (dominance for cuts; same-collection phase ordering for declarations), that the cut also checks new ≥ provider on every path to success, that shift types and the four cast/shift rules are gated by the table query in the constructor's direction with the continuation tied to the shift's source mode, and that ≥ is the preorder proved in C17 with unset/invalid modes rejected before any query. The top-level-process site violates this today (known finding K1).",
+		NotDecided:  "nothing further of the statement, given that every type entering a context carries a proper mode (R-UNSET-REJECTED) and R-MUST-CHECK of C07",
+		Assumptions: commonAssumptions,
+	})
 }
